@@ -22,6 +22,8 @@ HARNESSES = [
     # parsed instant must not depend on the process zone (added after a seeded change that sent "+0000" through mktime())
     dict(name="date-est5", src=["date.c"], variant="asan", env={"V_TZ": "EST5"}, deadline={"quick": 240, "thorough": 1500}),
     dict(name="date-ist", src=["date.c"], variant="asan", env={"V_TZ": "IST-5:30"}, tiers=["thorough"], deadline={"thorough": 1500}),
+    # free-running ThreadSanitizer twin: two threads, each with objects of its own (harness/common/twin.c; samples, decides nothing)
+    dict(name="own-objects-tsan", src=["../common/twin.c"], variant="tsan", cflags=["-DTWIN_C19", "-DVSX_FREE_RUNS=6"], deadline={"quick": 60, "thorough": 120}),
 ]
 ASSUMPTIONS = [
     "TZ=UTC, LC_ALL=C (forced by the harness environment); local-time views and zone-less RFC 822 input under other zones are not decided",
